@@ -83,7 +83,7 @@ func (fc *FnCtx) callModTargets(st *State, call *ast.CallExpr, stableBase func(a
 	}
 	switch callee.FullName() {
 	case "(*sync.Mutex).Lock", "(*sync.RWMutex).Lock", "(*sync.RWMutex).RLock", "(sync.Locker).Lock", "(*sync.Cond).Wait":
-		out := []modTarget{{"$held", ""}}
+		out := []modTarget{{"$held", ""}, {"$lockcalls", ""}}
 		mi := fc.lockTargetStatic(call)
 		if mi != nil && callee.FullName() == "(*sync.Cond).Wait" {
 			// x.cond.Wait(): the static target is the condition variable's field; the state that may change while
@@ -118,7 +118,7 @@ func (fc *FnCtx) callModTargets(st *State, call *ast.CallExpr, stableBase func(a
 		}
 		return out
 	case "(*sync.Mutex).Unlock", "(*sync.RWMutex).Unlock", "(*sync.RWMutex).RUnlock", "(sync.Locker).Unlock":
-		return []modTarget{{"$held", ""}}
+		return []modTarget{{"$held", ""}, {"$unlockcalls", ""}}
 	case "(*sync.Once).Do":
 		return []modTarget{{"$oncedone", ""}, {"*", ""}}
 	}
